@@ -114,9 +114,9 @@ impl Runtime {
         #[cfg(feature = "verif")]
         crate::verif::inflight_inc();
         tokio::spawn(async move {
-            proc.start();
             #[cfg(feature = "verif")]
-            crate::verif::inflight_dec();
+            let _verif_guard = crate::verif::InflightGuard;
+            proc.start();
         });
     }
 
@@ -347,11 +347,11 @@ impl Runtime {
         #[cfg(feature = "verif")]
         crate::verif::inflight_inc();
         tokio::spawn(async move {
+            #[cfg(feature = "verif")]
+            let _verif_guard = crate::verif::InflightGuard;
             let _ = scher
                 .do_action(&action)
                 .map_err(|err| error!("scher::return_to_act {}", err.to_string()));
-            #[cfg(feature = "verif")]
-            crate::verif::inflight_dec();
         });
     }
 }
